@@ -57,7 +57,7 @@ ASSUMPTIONS = ["solver tolerance = residual (dlon^2 + dlat^2) < 1e-7 deg^2 as do
                "all four masked -> undef_value"]
 TIERS = {"quick": dict(runs=600, budget_s=45, shrink=100),
          "thorough": dict(runs=50000, budget_s=900, shrink=200)}
-REQUIRED_PROBES = ["run_stereo", "run_linear", "run_subgrid", "roundtrip", "output_lonlat", "utility_mask",
+REQUIRED_PROBES = ["run_stereo", "run_linear", "run_subgrid", "roundtrip", "output_lonlat", "utility_mask", "utility_mask_and_outside",
                    "utility_outside_zero"]
 
 PROFILE = gen.profile(
@@ -298,6 +298,26 @@ def execute_utility(sc) -> Result:
             inside_ok = ~outside & (np.abs(np.asarray(got) - sample2D(G, np.where(outside, 0.5, Xo), np.where(outside, 0.5, Yo))) > 1e-12)
             if inside_ok.any():
                 res.add(Violation("C16.sample2d.outside", None, "inside points when others are outside", "changed", "unchanged"))
+    # outside the grid with a mask as well: the substitute for outside wins over the substitute for "all masked",
+    # whatever the mask looks like (also with land in the corner cell the outside points are parked in)
+    for trial in range(3):
+        M2 = np.array([[1.0 if s.chance(0.7) else 0.0 for _ in range(im)] for _ in range(jm)])
+        if trial == 0:
+            M2[0:2, 0:2] = 0.0
+        elif trial == 1:
+            M2[s.randint(0, 1), s.randint(0, 1)] = 0.0
+        ov, un = s.pick([(-999.0, 0.0), (0.0, -999.0), (5.5, 7.5), (float("nan"), -1.0)])
+        got = guard(lambda M2=M2, ov=ov, un=un: sample2D(G, Xo, Yo, mask=M2, undef_value=un, outside_value=ov),
+                    f"mask with outside_value={ov} undef_value={un}")
+        if got is None:
+            continue
+        res.probes["utility_mask_and_outside"] += 1
+        got = np.asarray(got, dtype=float)
+        bad = outside & ~((got == ov) | (np.isnan(got) & np.isnan(ov)))
+        if bad.any():
+            q = int(np.nonzero(bad)[0][0])
+            res.add(Violation("C16.sample2d.outside", None,
+                              f"mask given, outside_value={ov}, undef_value={un} at ({Xo[q]:.2f},{Yo[q]:.2f})", got[q], ov))
     return res
 
 
